@@ -13,3 +13,24 @@ pub mod set;
 mod truth_table;
 
 mod symbols;
+
+/// Verification hooks (compiled only with `--cfg rsbdd_verif`): an optional per-thread cap on the
+/// number of fixed-point iterations, so that a test harness can observe divergence as an unwind
+/// instead of a hang.  With the cap unset (the default) behaviour is unchanged.
+#[cfg(rsbdd_verif)]
+pub mod verif_hooks {
+    use std::cell::Cell;
+
+    thread_local! {
+        pub static FP_CAP: Cell<usize> = const { Cell::new(usize::MAX) };
+    }
+
+    /// payload of the unwind raised when the cap is exceeded
+    pub struct FpDiverged;
+
+    pub fn fp_step(iteration: usize) {
+        if iteration > FP_CAP.with(|c| c.get()) {
+            std::panic::panic_any(FpDiverged);
+        }
+    }
+}
